@@ -46,7 +46,7 @@ def sing_integral_0_x(sing, sargs, x):
     return _piecewise(lambda z: sing(z, sargs), pts)
 
 
-def convolve(reg, rargs, sing, sargs, delta, g, x, support, nodes, mirror_borders=True):
+def convolve(reg, rargs, sing, sargs, delta, g, x, support, nodes, mirror_borders=True, extra_breaks=()):
     """Returns (value, error estimate).
 
     g        : callable y -> g(y), zero outside `support` = (lo, hi)
@@ -70,7 +70,7 @@ def convolve(reg, rargs, sing, sargs, delta, g, x, support, nodes, mirror_border
         z_lo, z_hi = x, 1.0
     bps = sorted({x / n for n in nodes if n > 0 and z_lo < x / n < z_hi})
     # refine towards z -> 1 where the plus-prescription integrand varies fastest
-    extra = [1 - 10.0**-k for k in (1, 2, 3, 4, 6, 8)]
+    extra = [1 - 10.0**-k for k in (1, 2, 3, 4, 6, 8)] + [float(b) for b in extra_breaks]
     if reg is not None or sing is not None:
 
         def integrand(z):
